@@ -1,7 +1,8 @@
 (* C10: imperial and metric TrackAddict columns decode to the same metric value. *)
-From Coq Require Import String List ZArith Bool.
+From Coq Require Import String List ZArith Bool Reals.
+From Flocq Require Import Core.
 From TT Require Import Base.Outcome Base.Str Base.F64 Base.GoParse
-     Trackaddict.Units Trackaddict.Columns Proofs.C10_proofs.
+     Trackaddict.Units Trackaddict.Columns Proofs.C10_proofs Proofs.C10_real.
 Import ListNotations.
 Local Open Scope string_scope.
 
@@ -47,3 +48,35 @@ Print Assumptions C10_order_independent.
 Theorem C10_constants_precise : constants_precise = true.
 Proof. exact constants_precise_ok. Qed.
 Print Assumptions C10_constants_precise.
+
+(* ---- the same as statements about real numbers, for every float64 value ---- *)
+(* `R_of a` is the real number a float64 bit pattern denotes, `u64 = 2^-53` the half-ulp relative
+   error of one rounding.  Feet, miles and PSI: for EVERY value v (sign, magnitude, any number
+   of fractional digits) of magnitude up to 2^1000, the stored number differs from v times the
+   decimal constant of units.go (0.3048, 1.60934, 6.89476) by at most three half-ulps relative
+   (constant, product) plus the underflow quantum 2^-1075: far inside "the conversion constant's
+   precision". *)
+Theorem C10_imperial_real :
+  forall c kf k v, const_of c = Some (kf, k) -> (Rabs (R_of v) <= bpow radix2 1000)%R ->
+    (Rabs (R_of (apply_conv c v) - R_of v * k) <= 3 * u64 * (Rabs (R_of v) * k) + bpow radix2 (-1075))%R.
+Proof. exact mul_conv_real_bounded. Qed.
+Print Assumptions C10_imperial_real.
+
+(* and the stored number is exactly the correctly rounded product whenever it does not overflow *)
+Theorem C10_imperial_is_rounded_product :
+  forall c kf k v, const_of c = Some (kf, k) ->
+    (Rabs (round radix2 (FLT_exp (-1074) 53) ZnearestE (R_of v * R_of kf)) < bpow radix2 1024)%R ->
+    R_of (apply_conv c v) = round radix2 (FLT_exp (-1074) 53) ZnearestE (R_of v * R_of kf).
+Proof. intros c kf k v H1 H2. exact (proj1 (mul_conv_real c kf k v H1 H2)). Qed.
+Print Assumptions C10_imperial_is_rounded_product.
+
+(* Fahrenheit: (v - 32) * 5 / 9 with one half-ulp relative error (and at most one underflow
+   quantum) per operation; the division by 9 can never overflow *)
+Theorem C10_fahrenheit_real :
+  forall v, finite v ->
+    (Rabs (round radix2 (FLT_exp (-1074) 53) ZnearestE (R_of v - 32)) < bpow radix2 1024)%R ->
+    (Rabs (round radix2 (FLT_exp (-1074) 53) ZnearestE (R_of (fsub v (f_of_Z 32)) * 5)) < bpow radix2 1024)%R ->
+    exists e1 e2 e3 t1 t2 t3, rel_ok e1 /\ rel_ok e2 /\ rel_ok e3 /\ abs_ok t1 /\ abs_ok t2 /\ abs_ok t3 /\
+      R_of (apply_conv F2C v) = ((((R_of v - 32) * (1 + e1) + t1) * 5 * (1 + e2) + t2) / 9 * (1 + e3) + t3)%R.
+Proof. exact f2c_real. Qed.
+Print Assumptions C10_fahrenheit_real.
